@@ -13,3 +13,5 @@ const (
 )
 
 func verifSched(ev int, w *RowWorker, y, x int) {}
+
+func verifAfterEncode(enc *VP8Encoder) {}
